@@ -11,7 +11,9 @@ EXPLANATION = (
     'multi-word sentence; the finalizer emits one leaf per token in order (token counter +1 on the leaf path '
     'only, fresh per goal item), looks categories up by the stored id, and rebuilds left before right; the '
     'category table is append-only with id = position and duplicates rejected. Does not decide soundness of '
-    'the Python grammar (C03/C04) or anything about scores.')
+    'the Python grammar (C03/C04) or anything about scores.'
+    ' Also (second round): the batch split of depccg/parsing.py covers every sentence exactly once (R11.2 reused), and the rule cache stores the vector the callback filled without touching it.'
+)
 TRUSTED = ['clang-14 front end (-fsyntax-only, JSON AST)', 'CPython ast', 'the Cython normaliser sa/pyx.py', 'rule table DESIGN.md C02']
 
 
